@@ -108,6 +108,40 @@ Proof. intros H. inversion H; subst. assumption. Qed.
 
 (* ---- contexts ---- *)
 
+(* the last non-comment token behind the cursor (what Context::prev steps back onto) *)
+Definition lastreal (c : ctx) : option tok := find not_comment (pre c).
+
+Lemma strip_false_find : forall ts p, find not_comment (fst (strip false ts p)) = find not_comment p.
+Proof.
+  induction ts as [|t ts IH]; intros p; [reflexivity|]. cbn [strip].
+  destruct t as [| | | | | |k|]; try reflexivity; [rewrite IH; reflexivity|].
+  destruct k; reflexivity.
+Qed.
+
+Lemma skip1_lastreal c t ts : post c = t :: ts -> nl c = false -> t <> TComment -> lastreal (skip 1 c) = Some t.
+Proof.
+  intros Ep N Tc. unfold lastreal, skip. rewrite Ep, N. cbn [adv].
+  assert (A : adv ts match t with TComment => 1 | _ => 0 end (t :: pre c) = (t :: pre c, ts, 0)).
+  { destruct t; try (destruct ts; reflexivity). congruence. }
+  rewrite A. pose proof (strip_false_find ts (t :: pre c)) as S0.
+  destruct (strip false ts (t :: pre c)) as [p2 q2]. cbn [pre fst] in *. rewrite S0. cbn [find].
+  destruct t; try reflexivity. congruence.
+Qed.
+
+Lemma skip0_lastreal c : nl c = false -> lastreal (skip 0 c) = lastreal c.
+Proof.
+  intros N. unfold lastreal, skip. rewrite N.
+  assert (A : adv (post c) 0 (pre c) = (pre c, post c, 0)) by (destruct (post c); reflexivity).
+  rewrite A. pose proof (strip_false_find (post c) (pre c)) as S0.
+  destruct (strip false (post c) (pre c)) as [p2 q2]. cbn [pre fst] in *. exact S0.
+Qed.
+
+Lemma skip1_nil_lastreal c : post c = [] -> lastreal (skip 1 c) = lastreal c.
+Proof. intros Ep. unfold lastreal, skip. rewrite Ep. reflexivity. Qed.
+
+Lemma trivia_false_not_comment b t : trivia b t = false -> t <> TComment.
+Proof. intros H ->. discriminate. Qed.
+
 Record rel (b : bool) (s : list bool) (c c' : ctx) : Prop := {
   r_nl : nl c = b;
   r_nl' : nl c' = b;
@@ -116,12 +150,15 @@ Record rel (b : bool) (s : list bool) (c c' : ctx) : Prop := {
   r_set' : settled c';
   r_E : E b s (post c) (post c');
   r_frag : frag (post c);
-  r_frag' : frag (post c')
+  r_frag' : frag (post c');
+  (* while newlines count, both cursors have the same last real token behind them (with the flag on, a newline
+     skipped inside brackets may be the last token behind one of them only) *)
+  r_last : b = false -> lastreal c = lastreal c'
 }.
 
 Lemma rel_token b s c c' : rel b s c c' -> token c = token c'.
 Proof.
-  intros R. destruct R as [N N' _ S S' He _ _]. unfold token, settled in *. rewrite N in S. rewrite N' in S'.
+  intros R. destruct R as [N N' _ S S' He _ _ _]. unfold token, settled in *. rewrite N in S. rewrite N' in S'.
   destruct (post c) as [|t ts], (post c') as [|t' ts']; try reflexivity.
   - apply E_nil_head in He. congruence.
   - apply E_sym in He. apply E_nil_head in He. congruence.
@@ -202,7 +239,7 @@ Lemma rel_cases b s c c' : rel b s c c' ->
   exists t ts ts', post c = t :: ts /\ post c' = t :: ts' /\ trivia b t = false /\ tail_rel b s t ts ts'
                    /\ frag ts /\ frag ts'.
 Proof.
-  intros [N N' _ S S' He F F']. unfold settled in *. rewrite N in S. rewrite N' in S'.
+  intros [N N' _ S S' He F F' _]. unfold settled in *. rewrite N in S. rewrite N' in S'.
   destruct (post c) as [|t ts], (post c') as [|t' ts'].
   - left. split; reflexivity.
   - apply E_nil_head in He. congruence.
@@ -221,7 +258,7 @@ Proof. trivial. Qed.
 Lemma rel_skip_plain b s c c' : rel b s c c' -> opener (token c) = false -> closer (token c) = false ->
   rel b s (skip 1 c) (skip 1 c').
 Proof.
-  intros R O Cl. pose proof R as [N N' Ov _ _ _ _ _].
+  intros R O Cl. pose proof R as [N N' Ov _ _ _ _ _ RL].
   destruct (rel_cases b s c c' R) as [[Ep Ep']|(t & ts & ts' & Ep & Ep' & Tr & Tl & F & F')].
   - destruct (skip1_nil c Ep) as (A1 & A2 & A3). destruct (skip1_nil c' Ep') as (B1 & B2 & B3).
     constructor; try congruence.
@@ -230,6 +267,7 @@ Proof.
     + rewrite A1, B1. constructor.
     + rewrite A1. constructor.
     + rewrite B1. constructor.
+    + intros Hb. rewrite (skip1_nil_lastreal c Ep), (skip1_nil_lastreal c' Ep'). apply RL. exact Hb.
   - unfold token in O, Cl. rewrite Ep in O, Cl. unfold tail_rel in Tl. rewrite O, Cl in Tl.
     destruct (skip1_cons c t ts Ep) as (A1 & A2 & A3); [rewrite N; exact Tr|].
     destruct (skip1_cons c' t ts' Ep') as (B1 & B2 & B3); [rewrite N'; exact Tr|].
@@ -239,6 +277,9 @@ Proof.
     + rewrite A1, B1, N, N'. apply E_strip. exact Tl.
     + rewrite A1. apply strip_frag. exact F.
     + rewrite B1. apply strip_frag. exact F'.
+    + intros Hb.
+      rewrite (skip1_lastreal c t ts Ep (eq_trans N Hb) (trivia_false_not_comment _ _ Tr)),
+              (skip1_lastreal c' t ts' Ep' (eq_trans N' Hb) (trivia_false_not_comment _ _ Tr)). reflexivity.
 Qed.
 
 (* `(` / `[` followed by push_skip_newlines(true) *)
@@ -246,7 +287,7 @@ Lemma rel_enter b s c c' : rel b s c c' -> opener (token c) = true ->
   rel true (b :: s) (fst (push_nl true (skip 1 c))) (fst (push_nl true (skip 1 c')))
   /\ snd (push_nl true (skip 1 c)) = b /\ snd (push_nl true (skip 1 c')) = b.
 Proof.
-  intros R O. pose proof R as [N N' Ov _ _ _ _ _].
+  intros R O. pose proof R as [N N' Ov _ _ _ _ _ RL].
   destruct (rel_cases b s c c' R) as [[Ep Ep']|(t & ts & ts' & Ep & Ep' & Tr & Tl & F & F')].
   - unfold token in O. rewrite Ep in O. discriminate.
   - unfold token in O. rewrite Ep in O. unfold tail_rel in Tl. rewrite O in Tl.
@@ -268,7 +309,7 @@ Qed.
 Lemma rel_leave b b0 s c c' : rel b (b0 :: s) c c' -> closer (token c) = true ->
   rel b0 s (skip 1 (pop_nl b0 c)) (skip 1 (pop_nl b0 c')).
 Proof.
-  intros R Cl. pose proof R as [N N' Ov _ _ _ _ _].
+  intros R Cl. pose proof R as [N N' Ov _ _ _ _ _ RL].
   destruct (rel_cases b (b0 :: s) c c' R) as [[Ep Ep']|(t & ts & ts' & Ep & Ep' & Tr & Tl & F & F')].
   - unfold token in Cl. rewrite Ep in Cl. discriminate.
   - unfold token in Cl. rewrite Ep in Cl. unfold tail_rel in Tl.
@@ -283,13 +324,16 @@ Proof.
     + rewrite A1, B1. apply E_strip. exact Tl.
     + rewrite A1. apply strip_frag. exact F.
     + rewrite B1. apply strip_frag. exact F'.
+    + intros Hb. rewrite Hb in *.
+      rewrite (skip1_lastreal (pop_nl false c) t ts Ep eq_refl (trivia_false_not_comment _ _ Tr0)),
+              (skip1_lastreal (pop_nl false c') t ts' Ep' eq_refl (trivia_false_not_comment _ _ Tr0)). reflexivity.
 Qed.
 
 (* push_skip_newlines with the flag already in force, and the matching pop *)
 Lemma rel_push_same b s c c' : rel b s c c' ->
   rel b s (fst (push_nl b c)) (fst (push_nl b c')) /\ snd (push_nl b c) = b /\ snd (push_nl b c') = b.
 Proof.
-  intros R. pose proof R as [N N' Ov S S' He F F']. unfold push_nl. cbn [fst snd]. split; [|split; assumption].
+  intros R. pose proof R as [N N' Ov S S' He F F' RL]. unfold push_nl. cbn [fst snd]. split; [|split; assumption].
   destruct (skip0_post (set_nl b c)) as (C1 & C2 & C3). destruct (skip0_post (set_nl b c')) as (D1 & D2 & D3).
   cbn [set_nl post pre over nl] in C1, C2, C3, D1, D2, D3.
   constructor; try congruence.
@@ -298,11 +342,13 @@ Proof.
   - rewrite C1, D1. apply E_strip. exact He.
   - rewrite C1. apply strip_frag. exact F.
   - rewrite D1. apply strip_frag. exact F'.
+  - intros Hb. rewrite Hb. rewrite (skip0_lastreal (set_nl false c) eq_refl), (skip0_lastreal (set_nl false c') eq_refl).
+    apply RL. exact Hb.
 Qed.
 
 Lemma rel_pop_same b s c c' : rel b s c c' -> rel b s (pop_nl b c) (pop_nl b c').
 Proof.
-  intros [N N' Ov S S' He F F']. unfold pop_nl, set_nl.
+  intros [N N' Ov S S' He F F' RL]. unfold pop_nl, set_nl.
   constructor; cbn [post pre over nl]; try assumption; try reflexivity.
   - unfold settled in *. cbn [post nl]. rewrite N in S. exact S.
   - unfold settled in *. cbn [post nl]. rewrite N' in S'. exact S'.
@@ -1109,17 +1155,10 @@ Definition nl_in_brackets_statement_level (T : ptab) : Prop :=
    different recursion depth: at some fuels one run is out of fuel while the other has already reported its
    errors.  What the real parser (which has no fuel) satisfies is the statement with enough fuel on both
    sides ([parse_fuel], ParserTotal.v), where [Fuel] and [Panic] cannot occur.
-   NOT proved.  Missing, precisely: (1) relatedness, under [rel], of the statement-level step functions (the
-   type parser with its ( ) [ ] brackets, enum/blob declarations, use/from, step_stmt, step_stmts), in the style
-   of [step_rel]; (2) a reading of the simulation that survives the first recorded error: from then on the two
-   runs are no longer in step, and what is needed is only that both end in [Err] - ParserTotal gives that
-   (a block request with a non-empty error list never answers [Ok]; [Fuel] excluded by [parse_fuel]), but [prel]
-   / [run_rel] compare the two runs at the same fuel and relate errors unconditionally, so they have to be
-   restated with [Fuel] as a wildcard and with "the reported error list is non-empty" as a fact about calls;
-   (3) the `loop` arm: Context::prev must land on the same token in both inputs, i.e. the last non-comment token
-   behind the cursor must not be a newline that was skipped inside brackets - true because every closing
-   bracket is consumed after pop_skip_newlines, but [rel] says nothing about [pre] (PreSim.v's relation does,
-   for inputs with EQUAL tokens ahead). *)
+   PROVED in LayoutStmt.v ([nl_in_brackets_statement_settled]): the simulation is extended to the type parser,
+   declarations, statements and blocks; it is read with [Fuel] as a wildcard and with "a block request that has
+   recorded an error never answers Ok" (ParserTotal) for the runs after the first error; and [rel] carries the
+   last real token behind the cursor ([r_last]) for the `loop` arm's Context::prev. *)
 Definition nl_in_brackets_statement_settled_statement (T : ptab) : Prop :=
   forall ts ts' f, insignificant_diff ts ts' -> frag ts -> frag ts' ->
   (match ts with TComment :: _ => False | _ => True end) ->
